@@ -242,6 +242,10 @@ BOUNDED['C05'] = BOUNDED['C05'] + [{'name': 'built-ins-never-panic', 'script': '
     'bound': 'each of the 73 built-in names applied to every tuple of 0, 1 and 2 arguments from a 23-value grid (null, numbers incl. 2^64, strings incl. multi-byte, booleans, empty / null / nested lists, contexts, '
              'date, time, date and time, both durations, a function) and to every triple from an 8-value grid: 77 745 evaluations under catch_unwind, no panic'}]
 # list contains / index of / distinct values / union compare items with the equality of unit compare: its differential serves C08 too
+BOUNDED['C08'] = BOUNDED['C08'] + [{'name': 'list-and-string-positions-differential', 'script': 'listdiff.py', 'args': [],
+                                   'functions': ['core::sublist2 / sublist3 / substring / insert_before / remove / reverse / append / concatenate / flatten / union / distinct_values / count / index_of / list_contains', 'their positional and named wrappers'],
+                                   'bound': 'every list of length 0..4 from {1, 2, 3}, every position -6..6 and length 0..5, pairs of lists for concatenate / union / flatten, strings with non-ASCII and supplementary-plane characters at every position, '
+                                            'positions that are zero, null, not numbers or beyond the machine integers, the named forms: 12 016 evaluations against the definitions written out in Python (the same as the verified contracts); also decides these functions when a rewritten body leaves the extractor\'s reach'}]
 BOUNDED['C08'] = BOUNDED['C08'] + [{'name': 'equality-differential', 'script': 'eqdiff.py', 'args': [], 'functions': ['core::list_contains', 'core::index_of', 'core::distinct_values', 'core::union', 'builders::evaluate_equals'],
     'bound': 'every ordered pair from a 41-value alphabet under =, !=, list contains, index of (and distinct values / union on seven lists): about 4 000 evaluations; where items of different kinds meet inside lists / contexts only "not equal to true" is demanded'}]
 BOUNDED['C08'] = BOUNDED['C08'] + [{'name': 'aggregates-differential', 'script': 'statdiff.py', 'args': [], 'functions': ['core::sum', 'core::mean', 'core::min', 'core::max', 'core::count', 'core::median', 'core::mode', 'core::stddev'],
